@@ -146,5 +146,3 @@ func parseKVInt(s string) map[string]int {
 	return out
 }
 
-func cmdCheck(args []string) int  { fmt.Println("not yet"); return 2 }
-func cmdReplay(args []string) int { fmt.Println("not yet"); return 2 }
